@@ -50,12 +50,16 @@ def conclusions(case, impl):
             out.append(dict(what="first node below the frac-face value", value=float(f[1:, 0].min()), frac=g))
         dt_ = np.diff(f[:, 1:], axis=0)  # beyond the node next to the fracture
         steps = np.diff(np.asarray(case["times"], float))
-        for i, j in zip(*np.nonzero(dt_ > TOL * scale)):
-            # known finding K3: single-phase, code node 1, in a step longer than the previous one
-            k3 = case["kind"] == "single" and j == 0 and i >= 1 and steps[i] > steps[i - 1]
+        for i in sorted(set(np.nonzero(dt_ > TOL * scale)[0])):
+            # known finding K3: single-phase, in a step longer than the previous one, a bump that is largest at code
+            # node 1 and dies out within a few nodes (the frac-face row restarts node 0 from m_f every step)
+            js = np.nonzero(dt_[i] > TOL * scale)[0]
+            prefix = len(js) <= 5 and list(js) == list(range(len(js))) and np.all(np.diff(dt_[i, js]) <= 0)
+            k3 = case["kind"] == "single" and i >= 1 and steps[i] > steps[i - 1] and prefix
+            j = int(js[np.argmax(dt_[i, js])])
             out.append(dict(what="value rose in time beyond the node next to the fracture under constant drawdown",
-                            key="time-monotone" if k3 else "time-monotone-other", step=int(i), node=int(j) + 1,
-                            rise=float(dt_[i, j])))
+                            key="time-monotone" if k3 else "time-monotone-other", step=int(i), node=j + 1,
+                            rise=float(dt_[i, j]), rising_nodes=[int(x) + 1 for x in js]))
             if not k3:
                 break
     return out
@@ -114,11 +118,14 @@ def run(ctx):
                                        key="raise", input=rescorr.replay_payload(cases[k]),
                                        observed=dict(model_error=errflag, impl=impls[k].get("error"))))
             continue
-        worst = max(worst, d_field, d_mi)
-        if not (d_field <= 1e-7 and d_mi <= 1e-9):
-            ctx.violations.append(dict(what="implementation's pseudopressure field differs from the model's (for which the bounds are proved)",
+        worst = max(worst, resid, d_mi)
+        # tie: every stored level solves the MODEL's step system built from the previous stored level (relative residual at
+        # rounding level), and the fields agree grossly.  A tight field comparison is not a sound oracle: for tables whose
+        # diffusivity spans many decades the step matrix is ill-conditioned and two accurate solvers differ by cond x eps.
+        if not (resid <= 1e-9 and d_mi <= 1e-9 and d_field <= 1e-3):
+            ctx.violations.append(dict(what="implementation's stored levels are not the model's implicit updates (the model for which the bounds are proved)",
                                        key="corr", input=rescorr.replay_payload(cases[k]),
-                                       observed=dict(max_abs_diff_field=d_field, diff_m_i=d_mi)))
+                                       observed=dict(max_relative_step_residual=resid, max_abs_diff_field=d_field, diff_m_i=d_mi)))
     ctx.cov.update(evaluations=len(cases), distinct_nontrivial=sum(1 for im in impls if "field" in im),
                    steps_checked=steps, traces_validated_against_impl=len([r for r in res if r is not None]),
                    worst_model_impl_diff=worst,
